@@ -35,6 +35,16 @@ P = {
  "C17": ("sanitizer family: Miri (UB/provenance/leak/data-race interpreter) on operation histories, AddressSanitizer+LeakSanitizer and valgrind memcheck on the same history code and on the C01/C02/C07/C09/C12/C13 workloads, plus native histories with layout-invariant hook, shadow model, buffer-sharing check and counting allocator",
          "Runtime monitoring under sanitizers: histories over a pool of live integers (construction, in-place and by-reference arithmetic with self-aliasing, clone_from for all size relations, take/replace/drop, shifts across the inline/heap boundary, word/byte/chunk round trips, static-word values) run natively (millions of steps: invariant hook after every step, allocator balance after every history), under Miri (quick and thorough), and in the thorough tier under ASan/LSan and memcheck including Karatsuba/Toom-3/divide-and-conquer scratch-memory sizes.",
          "Miri runs with -Zmiri-permissive-provenance (the bump allocator casts integers to pointers), so provenance inside integer/src/memory.rs is only covered spatially by ASan/memcheck; sanitizers see only what the histories reach.", "DESIGN.md §4 C17"),
+
+ "C03": ("runtime monitor: exact-rational oracle + rounding-contract checker (ulp of the true value, mode side, flag truthfulness, tie rules), sqrt judged through squares",
+         "Runtime monitoring of Context::add/sub/mul/div/sqrt/sqr/cubic/inv for 6 modes x 6 bases x precisions 1..1000 with operands shaped after the addition algorithm's own case split (equal/overlapping/near-p/far exponents, cancellations, carries, short operands), exact and random quotients, perfect squares +-1; every result is judged against the exact rational value by the documented contract.",
+         "ulp is taken from the true value (weakest reading); num-rational arithmetic is exact.", "DESIGN.md §4 C03"),
+ "C06": ("differential runtime monitor: exact-rational sources against an independent IEEE-754 reference (all six modes, subnormals, overflow) that is self-tested against hardware casts/division; exactness oracles for every From/TryFrom",
+         "Runtime monitoring of primitive<->big integer conversions (all widths, limits), integer/rational/float -> f32/f64 (bit-exact with flags and error signs), f32/f64 -> integers/rationals/binary floats (exact or refused), RBig::to_float contract, FBig<->integer/primitive conversions and f32/f64 encode/decode (thorough: all 2^32 binary32 patterns).",
+         "Trusts hardware IEEE arithmetic only to self-test the reference; refusing a representable value is an error only where documentation is unambiguous.", "DESIGN.md §4 C06"),
+ "C10": ("runtime monitor: textbook definition of the six modes over exact rationals; exhaustive small grid for the public rounding primitives",
+         "Runtime monitoring of FBig trunc/floor/ceil/round/fract/split_at_point/to_int/with_precision and Repr::to_int (6 modes x 4 bases, values from integers to far below 1/B), RBig/Relaxed rounding, and Round::round_fract/round_ratio: exhaustive over bases 2/3/10/16 x 1..3 fraction digits x integer -4..4 x every numerator x 6 modes, plus random triples with fractions at/around one half up to 20000-digit precisions.",
+         "Ties in round() are away from zero as documented.", "DESIGN.md §4 C10"),
 }
 NOT_YET = "monitor not built yet in this round (design in DESIGN.md §4); no claim is made until its check exists and is silent on the unchanged tree"
 
